@@ -30,6 +30,7 @@ var (
 	flagRepo     = flag.String("repo", "/repo", "repository root")
 	flagVerif    = flag.String("verif", "/verif", "verification root")
 	flagOutRoot  = flag.String("outroot", "", "where evidence/ and out/ are written (default: the verification root); used to run against scratch worktrees")
+	flagDeadline = flag.Int("deadline", 0, "run-wide time limit in seconds (0 = none): items not finished by then are inconclusive, violations already confirmed are still reported")
 	flagJobs     = flag.Int("jobs", 16, "parallel workers")
 	flagOnly     = flag.String("only", "", "regexp: run only harness items whose label matches")
 	flagTrace    = flag.Bool("trace", false, "trace instructions")
@@ -93,6 +94,8 @@ type itemResult struct {
 	Funcs      []string          `json:"-"`
 	ExpectSat  bool              `json:"expect_sat,omitempty"`
 }
+
+var runDeadline time.Time
 
 func outRoot() string {
 	if *flagOutRoot != "" {
@@ -280,6 +283,9 @@ func run() int {
 	}
 
 	// run
+	if *flagDeadline > 0 {
+		runDeadline = t0.Add(time.Duration(*flagDeadline) * time.Second)
+	}
 	results := make([]*itemResult, len(items))
 	var wg sync.WaitGroup
 	ch := make(chan int)
@@ -293,6 +299,10 @@ func run() int {
 		go func() {
 			defer wg.Done()
 			for idx := range ch {
+				if !runDeadline.IsZero() && time.Now().After(runDeadline) {
+					results[idx] = &itemResult{Label: items[idx].Label, Func: items[idx].H.Fn.Name(), Args: items[idx].Args, Errors: []string{"DEADLINE not started before the run-wide time limit"}}
+					continue
+				}
 				r := runItem(items[idx].H.Prog, items[idx])
 				results[idx] = r
 				if *flagVerbose {
@@ -492,6 +502,7 @@ func runItem(prog *ssa.Program, it item) (res *itemResult) {
 	ex.Trace = *flagTrace
 	ex.HarnessPk = it.H.Pkg
 	ex.RepoDir = *flagRepo
+	ex.Deadline = runDeadline
 	ex.AllowPanic = it.H.AllowPanic
 	ex.NoMerge = it.H.NoMerge
 	ex.LazyAll = it.H.LazyAll
